@@ -309,14 +309,6 @@ def tld_functions(ctx, rule):
         src = P.show(r.term, maxdepth=8)
         last = [x for x in P.subterms(r.term) if F.last_piece(x, ".") is not None and F.last_piece(x, ".")[0] == "attr" and F.last_piece(x, ".")[2] == "hostname"]
         ctx.ob(rule, "has_valid_tld/last-label", bool(last), "has_valid_tld does not test the last label of the parsed hostname: %s" % src[:120], site, witness="a.b.fr")
-    # delegation
-    for name, meth in (("split_suffix", "split"), ("get_domain_name", "extract_domain_name"), ("has_valid_suffix", "has_valid_domain_name")):
-        ref = tld.func(name)
-        ctx.fn(ref.qualname)
-        body = [st for st in ref.node.body if isinstance(st, ast.Return)]
-        ok = len(body) == 1 and isinstance(body[0].value, ast.Call) and isinstance(body[0].value.func, ast.Attribute) and body[0].value.func.attr == meth \
-            and isinstance(body[0].value.func.value, ast.Name) and body[0].value.func.value.id == "SUFFIX_TRIE" and len(body[0].value.args) == 1 and isinstance(body[0].value.args[0], ast.Name)
-        ctx.ob(rule, "%s/delegates-to-trie" % name, ok, "%s is not SUFFIX_TRIE.%s(url)" % (name, meth), tld.site(ref.node))
     ref = tld.func("refresh")
     src = unparse(ref.node)
     names = set(n.attr for n in ast.walk(ref.node) if isinstance(n, ast.Attribute) and isinstance(n.value, ast.Name) and n.value.id == "tld_data")
@@ -327,6 +319,8 @@ def tld_functions(ctx, rule):
 
 
 def run(ctx):
+    from .common_url import rule_punycode
+    rule_punycode(ctx, "R6")
     ctx.rule("R0", "special hosts: SPECIAL_HOSTS_RE (the walk bails out on it) accepts exactly localhost / dotted quads (optional port) / colon-bearing hex literals as whole strings")
     from .common_url import rule_special_hosts
     rule_special_hosts(ctx, "R0")
@@ -347,7 +341,7 @@ MINI_RULES = [
 ]
 MINI_HOSTS = [
     # explicit rules: bare suffix / one label / two labels / spelling variants / inside a url
-    "uk", "co.uk", "a.co.uk", "b.a.co.uk", "A.B.Co.UK", "a.co.uk.", "http://b.a.co.uk:8080/x?y#z", "a.com", "com",
+    "uk", "co.uk", "a.co.uk", "b.a.co.uk", "c.b.a.co.uk", "d.c.b.a.com", "A.B.Co.UK", "a.co.uk.", "http://b.a.co.uk:8080/x?y#z", "a.com", "com",
     # private rule under a public one
     "github.io", "a.github.io", "b.a.github.io", "a.io",
     # wildcard: the extra label is part of the suffix; the bare parent matches no rule
@@ -387,6 +381,7 @@ def model_table(ctx, rule):
     ctx.rule(rule, "model table: SuffixTrie, interpreted (finite-domain interpreter, no import of ural) on a miniature rule list holding one instance of every rule kind {explicit, nested explicit, private, wildcard, exception under a wildcard, wildcard beside a longer rule with the same first label}, agrees with the publicsuffix.org algorithm on every host class {bare suffix, +1 label, +2 labels, upper case, trailing dot, inside a url, wildcard parent alone, exception label, no rule}: split / extract_suffix / extract_domain_name / has_valid_domain_name")
     from ..microeval import instantiate, Raised
     repo = ctx.repo
+    repo.__dict__["_default_values"] = {}
     m = repo.mod("classes.suffix_trie")
     cls = m.klass("SuffixTrie")
     meths = {st.name: st for st in cls.body if isinstance(st, ast.FunctionDef)}
@@ -433,3 +428,35 @@ def model_table(ctx, rule):
                    "over the rules %s, SuffixTrie.%s(%r) gives %r, the publicsuffix.org algorithm gives %r" % ([r for r, _ in MINI_RULES], name, h, got, exp[name]),
                    site, witness=h, sample="%s(%r) -> %r" % (name, h, got))
     ctx.require_instances(rule, n, 4 * len(MINI_HOSTS), "(method, host) cells")
+    # the public functions of ural.tld over the same trie (the module-level trie replaced by the miniature one)
+    tld = repo.mod("tld")
+    repo.global_overrides = {"ural.tld.SUFFIX_TRIE": trie}
+    try:
+        for fname, key in (("split_suffix", "split"), ("get_domain_name", "extract_domain_name"), ("has_valid_suffix", "has_valid_domain_name")):
+            fref = tld.func(fname)
+            ctx.fn(fref.qualname)
+            for h in MINI_HOSTS:
+                bare = h.split("://")[1].split("/")[0].split(":")[0] if "://" in h else h
+                ref = _psl_reference(MINI_RULES, bare)
+                exp = {"split": ref, "extract_domain_name": None if ref is None else (ref[1] if not ref[0] else ref[0].split(".")[-1] + "." + ref[1]), "has_valid_domain_name": ref is not None}[key]
+                try:
+                    got = run_function(repo, fref, [h])
+                except Raised as e:
+                    got = "raises %s" % e.name
+                except Unknown as e:
+                    ctx.undecided(rule, "tld.%s(%r): %s" % (fname, h, e))
+                    continue
+                if isinstance(got, list):
+                    got = tuple(got)
+                ctx.ob(rule, "tld.%s/%s" % (fname, h), got == exp, "over the miniature rule list, tld.%s(%r) gives %r, the publicsuffix.org algorithm gives %r" % (fname, h, got, exp), tld.site(fref.node), witness=h)
+    finally:
+        repo.global_overrides = {}
+    # a second trie is independent of the first
+    try:
+        other = instantiate(repo, m, cls)
+        call(other, "add", "zz")
+        ctx.ob(rule, "independent-instances/first-unchanged", call(trie, "split", "a.zz") is None, "a rule added to a second SuffixTrie is visible in the first one (shared state between instances)", site, witness="SuffixTrie().add('zz')")
+        ctx.ob(rule, "independent-instances/second-empty", call(other, "split", "a.co.uk") is None and tuple(call(other, "split", "a.zz") or ()) == ("a", "zz"),
+               "a fresh SuffixTrie already knows the rules of another instance (shared state between instances)", site, witness="SuffixTrie().split('a.co.uk')")
+    except (Unknown, Raised) as e:
+        ctx.undecided(rule, "second SuffixTrie: %s" % e)
